@@ -142,7 +142,7 @@ pub fn run_rel(case: &Value, seed: u64) -> Outcome {
         let text = super::rel::rel_text(&cls, m, seed, crate::conc::hash64(&o.key));
         if seen.insert(text.clone()) { feed_all(&mut o, &text, &feats); if m == 0 { feed_templates(&mut o, &text, &feats); } }
     }
-    if cls.is_empty() { scale(&mut o); }
+    if cls.is_empty() { scale(&mut o); own_alphabets(&mut o); }
     if cls.len() >= 3 { o.sample = json!({"relation_classes": cls.join(""), "calls": o.evals}); }
     o
 }
@@ -190,6 +190,35 @@ pub fn run_pgp(case: &Value, _seed: u64) -> Outcome {
 
 /// long inputs: the most nested / most repetitive patterns at 8K, 16K and 32K repetitions must come back
 /// within the worker's watchdog (an absolute, generous ceiling; never a ratio)
+/// the small line-level readers get ALL strings over their own delimiters up to length 6 (7 thorough): identities over
+/// letter @ < > ( ) blank dot comma, Vcs locations over letter blank - b [ ] / :
+fn own_alphabets(o: &mut Outcome) {
+    let thorough = std::env::var("VERIF_SCALE").map(|v| v == "thorough").unwrap_or(false);
+    let maxlen = if thorough { 7 } else { 6 };
+    let feats = vec!["own_alphabet".to_string()];
+    fn all(alpha: &[char], maxlen: usize, f: &mut dyn FnMut(&str)) {
+        let mut idx: Vec<usize> = vec![];
+        loop {
+            let t: String = idx.iter().map(|i| alpha[*i]).collect();
+            f(&t);
+            // next string in length-lexicographic order
+            let mut k = idx.len();
+            loop {
+                if k == 0 { idx = vec![0; idx.len() + 1]; break; }
+                k -= 1;
+                if idx[k] + 1 < alpha.len() { idx[k] += 1; for j in k + 1..idx.len() { idx[j] = 0; } break; }
+            }
+            if idx.len() > maxlen { return; }
+        }
+    }
+    all(&['a', '@', '<', '>', '(', ')', ' ', '.', ','], maxlen, &mut |t| { ep!(o, t, &feats, "parse_identity", debian_control::parse_identity(t)); });
+    all(&['u', ' ', '-', 'b', '[', ']', '/', ':'], maxlen, &mut |t| {
+        ep!(o, t, &feats, "ParsedVcs::from_str", debian_control::vcs::ParsedVcs::from_str(t));
+        ep!(o, t, &feats, "Vcs::from_field", debian_control::vcs::Vcs::from_field("Git", t));
+        ep!(o, t, &feats, "Vcs::from_field", debian_control::vcs::Vcs::from_field("Cvs", t));
+    });
+}
+
 fn scale(o: &mut Outcome) {
     let units = ["a (>= 1:1.0) [!b c] <!d e> <f>, ", "a | ", "${a:b}, ", "((((", "[[[[", "<<<<", "a:any, ", "A: b\n c\n", "# c\n", "\n", "A: b\n\n", " x\n", "a\r", "-x: y\n", "é: x\n",
                  "Files: *\nCopyright: c\nLicense: l\n\n", "-----BEGIN PGP SIGNATURE-----\n"];
